@@ -124,9 +124,9 @@ pub fn read_loop(
         let sz = sizes[i % sizes.len()];
         i += 1;
         // poison the buffer so that bytes "returned" without being written are recognisable
-        for b in buf[..sz].iter_mut() {
-            *b = 0xEE;
-        }
+        // (one memset, not a byte loop: caller buffers of 1 MiB are part of the plans and a loop is what
+        //  made single cases take a quarter of an hour under the interpreter)
+        buf[..sz].fill(0xEE);
         let res = reader.read(&mut buf[..sz]);
         out.read_calls += 1;
         if matches!(&res, Err(e) if e.kind() == io::ErrorKind::Interrupted) && out.interrupted < 1000 {
